@@ -21,7 +21,7 @@ CHECKS = {
          'All histories of insert_or_assign/erase over 4-7 colliding keys and 2 values up to the stated depth, from empty, from every small bulk-load, from deep bulk-loads and from non-initial states reached by fixed insert prefixes, for tiny (base, buffer_level, index_level) configurations that cascade through 3-4 levels and give small levels a PGM-index, with arithmetic, pointer and std::string values: in every distinct state find/count/lower_bound agree with std::map for every alphabet key and its neighbours.',
          'Canonical form = used_levels + per-level (key,value|tombstone) lists; equal forms have equal futures (per-level indexes are a function of the level contents, which C15 checks). Depth/key-set bounds as reported in the evidence.', '4/C05'),
  'C06': ('dynamic', 'explicit-state breadth-first search over operation histories on the real DynamicPGMIndex, std::map reference model',
-         'Same state space as C05; in every distinct state: iteration from begin() and from lower_bound(q) for every q to end() (strictly increasing live keys with current values, terminates), range(lo,hi) for every lo<=hi of the query alphabet equals the map slice exactly, size(), empty().',
+         'Same state space as C05; in every distinct state: iteration from begin() with ++it and with it++ and from lower_bound(q) for every q to end() (strictly increasing live keys with current values, terminates), range(lo,hi) for every lo<=hi of the query alphabet equals the map slice exactly, size(), empty().',
          'As C05.', '4/C06'),
  'C11': ('mapped', 'bounded-exhaustive input x query enumeration on the real MappedPGMIndex with real files, std algorithm oracles',
          'Every sorted array up to N over the palettes (signed/unsigned, 16..64 bit) and every member of the run family (runs shorter than, equal to and longer than the search range, powers of two +-1 for the gallop, last run ending at n) is stored through the range constructor; lower_bound, upper_bound, count, contains for every query of the alphabet equal std::lower_bound/upper_bound/count/binary_search, begin()/end()/size() expose the array.',
@@ -30,7 +30,7 @@ CHECKS = {
          'For every sorted array up to N (first key negative, zero, positive) every history of the stated length over {create from range, create from raw file, reopen f1, reopen f2, destroy object i}: after every step all live objects pass the C11 battery, the two files are byte-identical, reopened objects hold the same index members as the creator, files never change.',
          'As C11.', '4/C12'),
  'C16': ('conc', 'stateless model checking of thread schedules on the real code: access monitor over compiler instrumentation (own __tsan_* runtime) proves the shared write set empty; preemption-bounded exhaustive DFS over schedules under a serialising hand-off scheduler; free-running ThreadSanitizer as cross-check',
-         'For 7 objects x 8 read-only queries: (1) every query is executed under a monitor fed by clang -fsanitize=thread instrumentation; any write to memory that is neither the thread stack nor allocated inside the query is a data race between two threads running that query, and is reported with its addresses; on the unchanged tree the shared write set is empty, which makes all interleavings of any number of readers equivalent. (2) All schedules of 2 threads x 2 calls and 3 threads x 1 call over a 4-query alphabet per class are executed on real threads up to preemption bound 2 (3 thorough), with scheduling points at call boundaries, conflict-set accesses, atomics and mutex operations; every call must return its solo digest; a call that does not return within an access horizon is a violation. (3) 16 free-running threads under the real TSan runtime.',
+         'For 10 objects (PGMIndex and CompressedPGMIndex on both routing paths, two BucketingPGMIndex, EliasFano, Mapped, Multidimensional, Dynamic after updates) x 8 read-only queries each (search; find, count, size, empty, lower_bound, range, iteration; contains and box ranges; mapped lower/upper_bound, count, contains): (1) every query is executed under a monitor fed by clang -fsanitize=thread instrumentation; any write to memory that is neither the thread stack nor allocated inside the query is a data race between two threads running that query, and is reported with its addresses; on the unchanged tree the shared write set is empty, which makes all interleavings of any number of readers equivalent. (2) All schedules of 2 threads x 2 calls and 3 threads x 1 call over a 4-query alphabet per class are executed on real threads up to preemption bound 2 (3 thorough), with scheduling points at call boundaries, conflict-set accesses, atomics and mutex operations; every call must return its solo digest; a call that does not return within an access horizon is a violation. (3) 16 free-running threads under the real TSan runtime.',
          'Sequentially consistent interleavings; instrumentation covers the header-only library, libstdc++ templates, memcpy/memmove/memset and the allocator (interposed); failing schedules are replayed before they are reported.', '4/C16'),
  'C17': ('memsafe', 'bounded-exhaustive enumeration (the corpora of the other engines at reduced bounds) executed under AddressSanitizer with sdsl asserts enabled; sanitizer report or fatal signal = violation',
          'The search, multidim, mapped, dynamic, cabi and copymove engines are rebuilt with -fsanitize=address (recover mode, _GLIBCXX_SANITIZE_VECTOR, no NDEBUG) and run over their own input/history spaces: smallest sizes, empty containers, queries at lowest()/below first/above last/max-1, iterators driven to end(), boxes reaching the last point, copies outliving sources. Every case that triggers a sanitizer report, a failed assert or a fatal signal is a violation; wrong answers are left to the owning property.',
@@ -39,7 +39,7 @@ CHECKS = {
          'Static: every sorted array up to N for the four C types with run-time epsilon in {1,2,3,64,4096} and the block grammar, all alphabet queries, NULL exactly when the reserved value is present. Dynamic: every history of insert_or_assign/erase over 4 colliding keys x 2 values up to the stated depth from create_empty, from every create() of <= 3 pairs and from a deep state whose next insert merges the 585-entry buffer into level 4; find, lower_bound + iterator_next, begin + iterator_next to exhaustion, size compared with std::map after every step.',
          'cpgm.cpp compiled from the repository; opaque handles cannot be copied, so histories are re-executed from scratch.', '4/C18'),
  'C19': ('copymove', 'exhaustive enumeration of copy/move/destroy/mutate/query histories over two slots on the real classes under AddressSanitizer',
-         'For 10 class instantiations and every ordered pair of 3 datasets, every valid history up to the stated length over {copy-construct, move-construct, copy-assign, move-assign, destroy source, mutate source, query target}: the target answers its whole query alphabet exactly like a freshly built original and AddressSanitizer reports no access to freed or foreign storage.',
+         'For 13 class instantiations and every ordered pair of 3-4 datasets (plus near-twin datasets and a 600,001-key dataset for the succinct classes), every valid history up to the stated length over {copy-construct, move-construct, copy-assign, move-assign, destroy source, mutate source, query target}: the target answers its whole query alphabet exactly like a freshly built original and AddressSanitizer reports no access to freed or foreign storage.',
          'AddressSanitizer build (-O1, no NDEBUG); a moved-from source is only destroyed or assigned to.', '4/C19'),
  'C20': ('reject', 'exhaustive enumeration of precondition violations at every position, on the real classes and the C interface',
          'Reserved value appended (1..3 copies) to every sorted array up to N for all static classes, both MappedPGMIndex constructors and the C create functions; every DynamicPGMIndex base 2..255; every short bulk-load key sequence (inversions anywhere); the reserved mapped value offered at every point of every short update history with canonical-state and answer comparison; lo>hi ranges; too-wide coordinates at every point position and dimension; every short add_point sequence; negative epsilon. Each invalid input must raise the documented exception (NULL from C), each valid neighbour must be accepted.',
